@@ -497,61 +497,51 @@ int main(void) {
 # E3: tokens through refills (buffer of capacity BS, symbolic read schedule)
 
 POOL_ALLOC = r'''
-/* bounded replacement allocator: fixed-capacity blocks from a static pool
- * (sizes never become symbolic); requests above the capacity are outside
- * the bound of this harness */
-#ifndef VP_NBLK
-#define VP_NBLK 10
-#endif
+/* bounded replacement allocator: every block has the fixed capacity VP_CAP
+ * (sizes handed to malloc never become symbolic); requests above the
+ * capacity are outside the bound of this harness.  A small header keeps the
+ * requested size for yyrealloc and the ledger. */
 #ifndef VP_CAP
-#define VP_CAP 96
+#define VP_CAP 72
 #endif
-static union { char c[VP_CAP]; long long a; void *p; } vp_pool[VP_NBLK];
-static size_t vp_blk_size[VP_NBLK];
-static int vp_blk_live[VP_NBLK];
-static int vp_blk_used;
-static int vp_alloc_calls, vp_free_calls, vp_bad_free;
-static int vp_blk_of(void *p) {
-  for (int i = 0; i < VP_NBLK; i++) if ((void *)vp_pool[i].c == p) return i;
-  return -1;
-}
-void *yyalloc(VP_SIZE_T n VP_ALLOC_EXTRA) {
-  vp_alloc_calls++;
+#ifndef VP_RCAP
+#define VP_RCAP 24
+#endif
+#define VP_HDR 16
+static int vp_live_blocks, vp_alloc_calls, vp_free_calls, vp_realloc_calls;
+static void *vp_new(size_t n) {
   VP_ASSUME(n <= VP_CAP);              /* larger requests: outside the bound */
-  VP_ASSUME(vp_blk_used < VP_NBLK);
-  int i = vp_blk_used++;
-  vp_blk_size[i] = n; vp_blk_live[i] = 1;
-  return vp_pool[i].c;
+  char *p = (char *)malloc(VP_CAP + VP_HDR);
+  VP_ASSUME(p != 0);
+  *(size_t *)p = n;
+  vp_live_blocks++; vp_alloc_calls++;
+  return p + VP_HDR;
 }
+void *yyalloc(VP_SIZE_T n VP_ALLOC_EXTRA) { return vp_new(n); }
 void yyfree(void *p VP_ALLOC_EXTRA) {
   vp_free_calls++;
   if (p == 0) return;
-  int i = vp_blk_of(p);
-  if (i < 0 || !vp_blk_live[i]) { vp_bad_free++; return; }
-  vp_blk_live[i] = 0;
+  vp_live_blocks--;
+  free((char *)p - VP_HDR);
 }
 void *yyrealloc(void *q, VP_SIZE_T n VP_ALLOC_EXTRA) {
-  int i = vp_blk_of(q);
-  if (q != 0 && (i < 0 || !vp_blk_live[i])) { vp_bad_free++; }
+  /* every block already has capacity VP_CAP, so growing is done in place (a
+   * conforming realloc may return its argument); this keeps every scanner
+   * pointer single-target for the solver */
+  if (q == 0) return vp_new(n);
   VP_ASSUME(n <= VP_CAP);
-  VP_ASSUME(vp_blk_used < VP_NBLK);
-  int k = vp_blk_used++;
-  vp_alloc_calls++;
-  vp_blk_size[k] = n; vp_blk_live[k] = 1;
-  if (i >= 0) {
-    size_t m = vp_blk_size[i] < n ? vp_blk_size[i] : n;
-    for (size_t z = 0; z < VP_CAP; z++) if (z < m) vp_pool[k].c[z] = vp_pool[i].c[z];
-    vp_blk_live[i] = 0;
-  }
-  return vp_pool[k].c;
+  *(size_t *)((char *)q - VP_HDR) = n;
+  vp_realloc_calls++;
+  return q;
 }
 '''
 
 
-def head_with_pool(g, cfg, spec, nmax, pre_include=''):
+def head_with_pool(g, cfg, spec, nmax, pre_include='', pool=False):
     """common_head variant using the pool allocator and a harness YY_INPUT."""
     h = common_head(g, cfg, spec, nmax)
-    h = h.replace(ALLOC, POOL_ALLOC)
+    if pool:
+        h = h.replace(ALLOC, POOL_ALLOC)
     if pre_include:
         marker = '#include "%s"' % os.path.basename(g.cpath)
         h = h.replace(marker, pre_include + '\n' + marker)
@@ -645,7 +635,6 @@ int main(void) {
 #ifdef VP_WITNESS
   VP_ASSERT(!(refilled_tokens > 0 && off == VP_M), "WITNESS: a token spanning two reads was delivered and the stream was consumed");
 #endif
-  VP_ASSERT(vp_bad_free == 0, "only live blocks are freed or reallocated");
   return 0;
 }
 ''')
